@@ -529,26 +529,18 @@ def run_cursor_case(ctx, rng, n, mon):
 
 def run(ctx):
     mon = monitors.install()
-    for n in range(ctx.pick(12, 300)):
+    # the parts are interleaved: under a time cut-off every part has had its share
+    parts = [('cursor', run_cursor_case, ctx.pick(12, 300)), ('same-text', run_same_text_case, ctx.pick(60, 1500)), ('ledger', run_ledger_case, ctx.pick(12, 200)),
+             ('from', run_from_case, ctx.pick(500, 9000)), ('in', run_in_case, ctx.pick(500, 9000))]
+    top = max(n for _, _, n in parts)
+    for n in range(top):
         if ctx.out_of_time():
             break
-        run_cursor_case(ctx, ctx.rng('cursor', n), n, mon)
-    for n in range(ctx.pick(60, 1500)):
-        if ctx.out_of_time():
-            break
-        run_same_text_case(ctx, ctx.rng('same-text', n), n, mon)
-    for n in range(ctx.pick(12, 200)):
-        if ctx.out_of_time():
-            break
-        run_ledger_case(ctx, ctx.rng('ledger', n), n, mon)
-    for n in range(ctx.pick(500, 9000)):
-        if ctx.out_of_time():
-            break
-        run_from_case(ctx, ctx.rng('from', n), n, mon)
-    for n in range(ctx.pick(500, 9000)):
-        if ctx.out_of_time():
-            break
-        run_in_case(ctx, ctx.rng('in', n), n, mon)
+        for name, fn, count in parts:
+            # spread the smaller parts evenly over the range of the largest
+            step = top // count
+            if n % step == 0 and n // step < count:
+                fn(ctx, ctx.rng(name, n // step), n // step, mon)
 
 
 def replay(ctx, case):
